@@ -58,6 +58,7 @@ type EngineCfg struct {
 	Rename     map[string]string `json:"rename"`     // exact file under /verif -> exact destination path relative to /repo
 	Instrument []string          `json:"instrument"` // args for tools/instrument (optional)
 	HideTests  []string          `json:"hide_tests"` // package dirs (relative to /repo) whose own *_test.go files are hidden
+	MapOrder   []string          `json:"maporder"`   // package patterns for tools/maporder (map-range order seam)
 	Go         string            `json:"go"`
 	Tags       string            `json:"tags"`
 }
@@ -139,6 +140,51 @@ func buildEngine(name string, e EngineCfg, mutantDir string) string {
 	if goBin == "" {
 		goBin = "go1.26.8"
 	}
+	srcMapPath := ""
+	if len(e.MapOrder) > 0 {
+		// type-driven rewrite of map ranges (tools/maporder, built with the default toolchain and
+		// x/tools v0.29.0). Slow (type-checks from source), so cached on a stamp of the sources.
+		moBin := filepath.Join(verifDir, "build", "bin", "maporder")
+		if _, err := os.Stat(moBin); err != nil || os.Getenv("VERIF_REBUILD_TOOLS") == "1" {
+			cmd := exec.Command("go", "build", "-o", moBin, ".")
+			cmd.Dir = filepath.Join(verifDir, "tools", "maporder")
+			cmd.Env = goEnv()
+			if out, err := cmd.CombinedOutput(); err != nil {
+				die2("build maporder: %v\n%s", err, out)
+			}
+		}
+		outDir := filepath.Join(bdir, "maporder")
+		stamp := sourceStamp(e.MapOrder, moBin)
+		stampFile := filepath.Join(bdir, "maporder.stamp")
+		mapFile := filepath.Join(bdir, "maporder.json")
+		old, _ := os.ReadFile(stampFile)
+		if string(old) != stamp || !fileExists(mapFile) {
+			os.RemoveAll(outDir)
+			os.MkdirAll(outDir, 0o755)
+			args := append([]string{"-out", outDir, "-repo", repoDir}, e.MapOrder...)
+			cmd := exec.Command(moBin, args...)
+			cmd.Dir = repoDir
+			cmd.Env = goEnv()
+			var stdout, stderr bytes.Buffer
+			cmd.Stdout, cmd.Stderr = &stdout, &stderr
+			t0 := time.Now()
+			if err := cmd.Run(); err != nil {
+				die2("maporder failed: %v\n%s", err, stderr.String())
+			}
+			os.WriteFile(mapFile, stdout.Bytes(), 0o644)
+			os.WriteFile(stampFile, []byte(stamp), 0o644)
+			fmt.Fprintf(os.Stderr, "vdriver: maporder %.1fs %s", time.Since(t0).Seconds(), stderr.String())
+		}
+		mb, _ := os.ReadFile(mapFile)
+		var m map[string]string
+		if err := json.Unmarshal(mb, &m); err != nil {
+			die2("maporder output: %v", err)
+		}
+		for k, v := range m {
+			replace[k] = v
+		}
+		srcMapPath = mapFile
+	}
 	if len(e.Instrument) > 0 {
 		instBin := filepath.Join(verifDir, "build", "bin", "instrument")
 		if _, err := os.Stat(instBin); err != nil || os.Getenv("VERIF_REBUILD_TOOLS") == "1" {
@@ -152,7 +198,11 @@ func buildEngine(name string, e EngineCfg, mutantDir string) string {
 		outDir := filepath.Join(bdir, "inst")
 		os.RemoveAll(outDir)
 		os.MkdirAll(outDir, 0o755)
-		args := append([]string{"-out", outDir, "-repo", repoDir}, e.Instrument...)
+		args := []string{"-out", outDir, "-repo", repoDir}
+		if srcMapPath != "" {
+			args = append(args, "-srcmap", srcMapPath)
+		}
+		args = append(args, e.Instrument...)
 		cmd := exec.Command(instBin, args...)
 		cmd.Dir = repoDir
 		cmd.Env = goEnv()
@@ -594,6 +644,47 @@ func main() {
 		die2("vacuity guard: the batch did not reach%s — not claiming a pass", vacuous)
 	}
 	fmt.Printf("OK property=%s held on everything explored\n", id)
+}
+
+func fileExists(p string) bool {
+	_, err := os.Stat(p)
+	return err == nil
+}
+
+// sourceStamp fingerprints (path, size, mtime) of every non-test .go file under the directories
+// named by the package patterns ("./x/..." -> x, recursively; "./protocol/lavasession" -> that dir)
+// plus go.mod and the tool binary.
+func sourceStamp(patterns []string, tool string) string {
+	h := sha256.New()
+	add := func(p string) {
+		if st, err := os.Stat(p); err == nil {
+			fmt.Fprintf(h, "%s|%d|%d\n", p, st.Size(), st.ModTime().UnixNano())
+		}
+	}
+	add(tool)
+	add(filepath.Join(repoDir, "go.mod"))
+	for _, pat := range patterns {
+		dir := strings.TrimPrefix(pat, "./")
+		recursive := strings.HasSuffix(dir, "/...")
+		dir = strings.TrimSuffix(dir, "/...")
+		root := filepath.Join(repoDir, dir)
+		filepath.Walk(root, func(p string, info os.FileInfo, err error) error {
+			if err != nil {
+				return nil
+			}
+			if info.IsDir() {
+				if p != root && !recursive {
+					return filepath.SkipDir
+				}
+				return nil
+			}
+			if strings.HasSuffix(p, ".go") && !strings.HasSuffix(p, "_test.go") {
+				fmt.Fprintf(h, "%s|%d|%d\n", p, info.Size(), info.ModTime().UnixNano())
+			}
+			return nil
+		})
+	}
+	return fmt.Sprintf("%x", h.Sum(nil))
 }
 
 func sanitize(s string) string {
